@@ -92,7 +92,7 @@ CLAIM = {
              "witness apply); non-canonical texts (stray quotes, text after a closing quote, blank lines) are covered by the general "
              "theorems (totality, count, bounds, field boundaries) and by the correspondence stream, not by a round trip. Finding F41 (third session, fixed by 096780e): with credit / debit columns the credit cell used to win whenever it was not empty, so a row "
              "`0.00 | 400.00` was booked as 0.00; now the debit is booked when the credit cell holds a zero (CreditDebitRule in C16_sign_credit_debit, "
-             "C16_credit_debit_written, C16_sign_file; C16_both_cells_filled: the witness rows as a kernel-checked run of the model); the witness "
+             "C16_credit_debit_written, C16_sign_file; C16_both_cells_net: when both cells hold a number and one of them is zero the row moves the account by credit - debit; C16_both_cells_filled: the witness rows as a kernel-checked run of the model); the witness "
              "statement runs first on every check and both mirror classes (a zero in the other cell) are generated."),
     "note": "YAML decoding, chrono date parsing and the regex engine are parameters of the model (decoded by the real "
             "libraries in the harness); the csv crate's record splitting is modelled (Model/CsvText.lean) and compared on every case, "
@@ -115,7 +115,7 @@ THEOREMS = ["Okane.Import.C16_sign_credit_debit", "Okane.Import.C16_sign_amount"
             "Okane.Import.C16_inexact_conversion_rejected",
             "Okane.Import.C16_cell_total", "Okane.Import.C16_cell_accepts_exactly", "Okane.Import.C16_cell_minus_signs",
             "Okane.Import.C16_amount_written", "Okane.Import.C16_credit_debit_written",
-            "Okane.Import.C16_both_cells_filled", "Okane.Import.CellsUse.sign_credit_debit",
+            "Okane.Import.C16_both_cells_filled", "Okane.Import.CellsUse.sign_credit_debit", "Okane.Import.C16_both_cells_net",
             "Okane.Import.C16_template_accepts_exactly", "Okane.Import.C16_template_round_trip",
             "Okane.Import.C16_template_rejects", "Okane.Import.Cells.C16_cell_complete", "Okane.Import.Cells.C16_cell_reject",
             "Okane.Import.Cells.C16_cell_value", "Okane.Import.Cells.templateParse_total",
